@@ -7,12 +7,15 @@ import copy, re
 from .common import Broken
 
 PREFIX = {"acl": "access-list", "gp": "group-policy", "user": "username", "pool": "ip local pool",
-          "tg": "tunnel-group", "cm": "crypto ca certificate map", "tgm": "tunnel-group-map", "webvpn": "webvpn"}
+          "tg": "tunnel-group", "cm": "crypto ca certificate map", "tgm": "tunnel-group-map", "webvpn": "webvpn",
+          "cmap": "crypto map", "ts": "crypto ipsec ikev1 transform-set"}
 RPREFIX = sorted(((v, k) for k, v in PREFIX.items()), key=lambda x: -len(x[0]))
 # sub-commands that reference another object: text prefix -> kind of the referenced object
 SUBREF = [("vpn-filter value ", "acl"), ("split-tunnel-network-list value ", "acl"), ("address-pools value ", "pool"),
           ("default-group-policy ", "gp"), ("vpn-group-policy ", "gp")]
-ORDER = ["acl", "pool", "cm", "gp", "tg", "user", "tgm", "webvpn"]
+ORDER = ["acl", "pool", "ts", "cm", "gp", "tg", "user", "tgm", "webvpn", "cmap", "cmi"]
+# settings of a crypto map entry that reference another object: text prefix -> kind
+CMREF = [("match address ", "acl"), ("set ikev1 transform-set ", "ts")]
 
 
 def key(kind, name):
@@ -33,6 +36,14 @@ def render(cfg, dev):
     for kind in ORDER:
         for k in sorted(k for k in objs if objs[k]["kind"] == kind):
             o = objs[k]
+            if kind == "cmap":       # top-level lines `crypto map NAME SEQ setting`
+                for ln in sorted(o["lines"], key=lambda l: (int(l["m"]), l["t"])):
+                    out.append("crypto map %s %s %s" % (o["name"], ln["m"], subst(ln["t"], ln["r"])))
+                continue
+            if kind == "cmi":        # `crypto map NAME interface IF`
+                for ln in o["lines"]:
+                    out.append("crypto map %s interface %s" % (ln["r"][0].split("|", 1)[1], o["name"]))
+                continue
             head = PREFIX[kind] + (" " + o["name"] if o["name"] else "")
             for ln in o["lines"]:
                 if ln["m"] == "":
@@ -108,6 +119,20 @@ def parse_script(text):
             continue
         kind, name, rest = top
         k = key(kind, name)
+        if kind == "cmap":
+            w = rest.split()
+            if w[0] == "interface":
+                evs.append(dict(e, ev="TopNoLine" if no else "TopLine", k=key("cmi", w[1]), kind="cmi", name=w[1], m="",
+                                tx="$ interface", r=[k]))
+            else:
+                t, r = " ".join(w[1:]), []
+                for pfx, rk in CMREF:
+                    if t.startswith(pfx):
+                        t, r = pfx + "$", [key(rk, t[len(pfx):].strip())]
+                        break
+                evs.append(dict(e, ev="TopNoLine" if no else "TopLine", k=k, kind=kind, name=name, m=w[0], tx=t, r=r))
+            mode = None
+            continue
         if kind == "webvpn" and rest == "":
             evs.append(dict(e, ev="SubEnter", k=k, kind=kind, name=name, m=""))
             mode = (k, "")
@@ -131,7 +156,7 @@ def parse_script(text):
                 t, r = "default-group $", [key("tg", w[1])]
             else:
                 t, r = "$ %s $" % w[1], [key("cm", w[0]), key("tg", w[2])]
-        evs.append(dict(e, ev="TopNoLine" if no else "TopLine", k=k, kind=kind, name=name, tx=t, r=r))
+        evs.append(dict(e, ev="TopNoLine" if no else "TopLine", k=k, kind=kind, name=name, m="", tx=t, r=r))
         mode = None
     return evs
 
@@ -170,13 +195,15 @@ class Replica:
             if bad:
                 return
             o = self.objs.setdefault(e["k"], {"kind": e["kind"], "name": e["name"], "lines": []})
-            ln = {"m": "", "t": e["tx"], "r": list(e["r"])}
+            ln = {"m": e["m"], "t": e["tx"], "r": list(e["r"])}
+            if ln["r"] and (ln["m"] != "" or e["kind"] == "cmi"):      # single-valued setting
+                o["lines"][:] = [x for x in o["lines"] if not (x["m"] == ln["m"] and x["t"] == ln["t"])]
             if ln not in o["lines"]:
                 o["lines"].append(ln)
         elif ev == "TopNoLine":
             self.mode = None
             o = self.objs.get(e["k"])
-            ln = {"m": "", "t": e["tx"], "r": list(e["r"])}
+            ln = {"m": e["m"], "t": e["tx"], "r": list(e["r"])}
             if o is None or ln not in o["lines"]:
                 return
             if o["lines"] == [ln] and self.referenced(e["k"]):
